@@ -3,7 +3,7 @@
 //! model recorded; C18 additionally builds the same abstract graph a second way (canonicity).
 
 use crate::hist::{Ctx, HistMonitor, HistStats};
-use crate::ops::{label_show, Op};
+use crate::ops::{spec_show as label_show, Op};
 use crate::rec::{guarded, Outcome, Session};
 use crate::shim::{new_graph, Graph};
 use std::collections::{BTreeMap, BTreeSet};
